@@ -776,6 +776,24 @@ def gen_exact(rng):
     return sc
 
 
+def gen_exactT(rng):
+    """exact mode where an event falls exactly on the horizon: a deterministic arrival stream with period a and
+    T = m * a (nothing scheduled at or after T may be executed, in decimal arithmetic)"""
+    sc = gen_core1(rng)
+    sc["exact"] = rng.choice([10, 14, 20, 28])
+    sc["dec"] = rng.choice([1, 1, 2])
+    a = rng.choice([1, 3, 7, 11, 13])
+    N, K = sc["N"], sc["K"]
+    for n in range(N):
+        for k in range(K):
+            sc["arrS"][n][k] = [a] if (n == 0 and k == 0) else []
+            sc["svcS"][n][k] = sorted(set(max(0, v * rng.choice([1, 3, 7]) + rng.choice([0, 1, 3])) for v in sc["svcS"][n][k])) or [1]
+    sc.pop("batchS", None)
+    sc.pop("patS", None)
+    sc["T"] = a * rng.randint(3, 14)
+    return sc
+
+
 def gen_eps(rng):
     """exact arithmetic mode with samples of 16-17 significant digits (two-scale ticks, see scenario.frac_of): a
     tick A * 10^4 + B is the engine value A * 0.1 + B * 10^-16.  Only floats whose shortest repr is exactly that
@@ -1061,6 +1079,7 @@ def gen_stopcount(rng):
 
 
 FAMILIES = {
+    "exactT": gen_exactT,
     "slotpreblock": gen_slotpreblock,
     "slotblock": gen_slotblock,
     "ppzero": gen_ppzero,
